@@ -10,7 +10,8 @@ namespace OP2Utility::Stream
 
 	void MemoryReader::ReadImplementation(void* buffer, std::size_t size)
 	{
-		if (position + size > streamSize) {
+		// Note: position <= streamSize always holds, so the subtraction cannot wrap (unlike position + size)
+		if (size > streamSize - position) {
 			throw std::runtime_error("Size of bytes to read exceeds remaining size of buffer.");
 		}
 
